@@ -114,6 +114,17 @@ def rejects(kind):
         if kind == "two_bases":
             s = FakeSamples({"ground-rydberg": {"q0": ok}, "XY": {"q0": ok}}, 2.0)
             env.check_raises(lambda: pa._extract_omega_delta_phi(s, ("q0",), ts), (ValueError,), "two channel bases are rejected")
+        elif kind == "supported_plus_unsupported":
+            # a supported basis next to one the emulators do not implement (e.g. a Raman channel):
+            # the whole sequence must be refused, not the unsupported part silently dropped
+            first = env.choice("supported", ["ground-rydberg", "XY"])
+            other = env.choice("unsupported", ["digital", "all"])
+            order = env.boolean("unsupported_first")
+            items = [(first, {"q0": ok}), (other, {"q0": ok})]
+            if order:
+                items.reverse()
+            s = FakeSamples(dict(items), 2.0)
+            env.check_raises(lambda: pa._extract_omega_delta_phi(s, ("q0",), ts), (ValueError,), "a supported basis mixed with an unsupported one is rejected")
         elif kind == "unknown_basis":
             s = FakeSamples({"digital": {"q0": ok}}, 2.0)
             env.check_raises(lambda: pa._extract_omega_delta_phi(s, ("q0",), ts), (ValueError,), "an unsupported basis is rejected")
@@ -168,6 +179,6 @@ def cases(tier):
             )
         )
     out.append(Case("extract_xy_basis", extract(3, 2, 1, basis="XY"), covers=COVERS, bounds={"basis": "XY"}, canaries=["left_endpoint"]))
-    for k in ("two_bases", "unknown_basis", "imag", "duration_mismatch"):
+    for k in ("two_bases", "supported_plus_unsupported", "unknown_basis", "imag", "duration_mismatch"):
         out.append(Case(f"rejects_{k}", rejects(k), covers=COVERS, bounds={"input": k}))
     return out
